@@ -58,6 +58,7 @@ def gen_case(rng: random.Random, tier: str) -> dict:
         "top_map": rng.choice(ext) if (ext and not g["seeds"] and rng.random() < 0.25) else None,
         "top_map_n": rng.randint(0, 3),
         "reject": rng.random() < 0.06,
+        "select_seed": rng.randrange(1 << 30) if rng.random() < 0.3 else None,  # explicit select + on_missing="error"
     }
 
 
@@ -99,11 +100,18 @@ def run_case(doc: dict) -> dict:
     kw = {"error_handling": doc["error_handling"]}
     if doc.get("max_iterations"):
         kw["max_iterations"] = doc["max_iterations"]
+    if doc.get("select_seed") is not None:
+        srng = random.Random(doc["select_seed"])
+        emits0 = {e for nd, _d, _p in iter_nodes(g) for e in nd.get("emit", [])}
+        names = [o for o in gen.program_outputs(g) if o not in emits0]
+        if names:
+            kw["select"] = srng.sample(names, srng.randint(1, min(3, len(names))))
+            kw["on_missing"] = "error"
     values = base_values
     if doc.get("top_map"):
         op = "map"
         mp = doc["top_map"]
-        kw = {"error_handling": doc["error_handling"], "map_over": mp}
+        kw = dict({k_: v_ for k_, v_ in kw.items() if k_ in ("select", "on_missing")}, error_handling=doc["error_handling"], map_over=mp)
 
         def values(graph, _b=base_values, _mp=mp):  # noqa: F811
             v = _b(graph)
@@ -150,6 +158,8 @@ def run_case(doc: dict) -> dict:
             out = w["out"]
             tag = f"{label}"
             rejected = op == "run" and out["status"] == "raised" and out["error"] and out["error"][0] in ("MissingInputError", "ValueError", "IncompatibleRunnerError", "GraphConfigError")
+            if rejected and "Requested outputs not found" in str(out["error"][1]):
+                rejected = False  # on_missing="error" fires AFTER the run: an ordinary failed run, not a rejected call
             decs = gate_decisions(g, warm_rts + [w["rt"]])
             for p in box["procs"]:
                 if rejected:
@@ -200,7 +210,7 @@ def shrink_candidates(doc: dict):
     from checks.c02 import shrink_program
 
     yield from shrink_program(doc)
-    for key, val in (("cache", False), ("top_map", None), ("max_iterations", None), ("reject", False)):
+    for key, val in (("cache", False), ("top_map", None), ("max_iterations", None), ("reject", False), ("select_seed", None)):
         if doc.get(key):
             c = copy.deepcopy(doc)
             c[key] = val
